@@ -61,6 +61,9 @@ func genC08(tier string, seed int64) []Case {
 	add(c08Desc{Prefix: "midinit", Trigger: "explicit", Suffix: "crash", NExt: 1}) // known finding (see known_findings.jsonl)
 	add(c08Desc{Prefix: "healthy1", Trigger: "explicit", Suffix: "healthy2", Late: "afterRelease", LateAt: "received", NExt: 0})
 	add(c08Desc{Prefix: "timeout", Trigger: "auto", Suffix: "healthy2", Late: "afterDispatch", LateAt: "received", NExt: 0})
+	add(c08Desc{Prefix: "healthy1", Trigger: "explicit", Suffix: "crash", Late: "afterRelease", LateAt: "received", NExt: 0})
+	add(c08Desc{Prefix: "timeout", Trigger: "auto", Suffix: "crash", Late: "afterRelease", LateAt: "received", NExt: 0})
+	add(c08Desc{Prefix: "healthy3", Trigger: "explicit", Suffix: "errorresp", Late: "afterRelease", LateAt: "received", NExt: 0})
 	// late-notification orders: the held exit notification is always the LAST one of the old
 	// generation, so that holding the watcher delays nothing the reset itself waits for
 	for _, late := range []string{"beforeCtxClear", "beforeServerClear", "afterRelease", "afterDispatch"} {
